@@ -493,6 +493,7 @@ func (ex *Exec) run() (err error) {
 	}
 	// entry snapshot
 	st.entry = copyMap(st.heap)
+	ex.assertsAt(st, "entry", token.NoPos)
 	// ghost updates at entry
 	for _, c := range ex.cons {
 		if len(c.GEntry) == 0 {
@@ -574,6 +575,7 @@ func (ex *Exec) walk(st *State, b *ssa.BasicBlock, pred *ssa.BasicBlock) {
 				return
 			default:
 				ex.step(st, in)
+				ex.ghostAt(st, in)
 			}
 		}
 		if next == nil {
@@ -879,4 +881,68 @@ func (ex *Exec) ghostUpdate(st *State, e *Env, g *Clause) {
 	}
 	st.sc.comment("ghost %s = %s", g.Label, g.Text)
 	st.storeLoc(l, nv)
+}
+
+// ghostAt runs the ghost updates anchored right after instruction in (anchor = kind#ordinal, with the
+// same kinds and ordinals as in obligation names: append#1, copy#2, call#3, store#1, mapupdate#1).
+func (ex *Exec) ghostAt(st *State, in ssa.Instruction) {
+	if ex.con == nil {
+		return
+	}
+	var anchor string
+	switch t := in.(type) {
+	case *ssa.Call:
+		if bi, ok := t.Call.Value.(*ssa.Builtin); ok {
+			anchor = fmt.Sprintf("%s#%d", bi.Name(), ex.ordinal[in])
+		} else {
+			anchor = fmt.Sprintf("call#%d", ex.ordinal[in])
+		}
+	case *ssa.Store:
+		anchor = fmt.Sprintf("store#%d", ex.ordinal[in])
+	case *ssa.MapUpdate:
+		anchor = fmt.Sprintf("mapupdate#%d", ex.ordinal[in])
+	default:
+		return
+	}
+	ex.assertsAt(st, anchor, in.Pos())
+	for _, c := range ex.cons[:ex.ownCons] {
+		for _, g := range c.GAt {
+			if g.Anchor != anchor {
+				continue
+			}
+			e := ex.envFor(st, c)
+			ex.bindSelf(st, c, e)
+			eo := *e
+			eo.cur = st.entry
+			for _, l := range c.Lets {
+				e.vars[l.Label] = (&eo).evalLetSafe(l)
+			}
+			ex.ghostUpdate(st, e, g)
+		}
+	}
+}
+
+func (ex *Exec) assertsAt(st *State, anchor string, pos token.Pos) {
+	if ex.con == nil {
+		return
+	}
+	for _, c := range ex.cons[:ex.ownCons] {
+		for k, a := range c.Asserts {
+			if a.Anchor != anchor {
+				continue
+			}
+			e := ex.envFor(st, c)
+			ex.bindSelf(st, c, e)
+			eo := *e
+			eo.cur = st.entry
+			for _, l := range c.Lets {
+				e.vars[l.Label] = (&eo).evalLetSafe(l)
+			}
+			name := fmt.Sprintf("assert@%s#%d", anchor, k+1)
+			if a.Label != "" {
+				name = "assert@" + anchor + ":" + a.Label
+			}
+			st.check(name, "hint", e.eval(a.Expr), "intermediate assertion: "+a.Text, a.Props, pos)
+		}
+	}
 }
